@@ -252,7 +252,7 @@ func (w *World) foldInto(p *packages.Package, caller, hfd *ast.FuncDecl, h *type
 	subst := map[types.Object]*types.Var{}
 	taken := map[*types.Var]bool{}
 	bound := map[*types.Var]bool{} // parameters that keep their own variable, assigned before the body
-	var pre []ast.Stmt // `param := argument` for arguments that are not plain variables
+	var pre []ast.Stmt             // `param := argument` for arguments that are not plain variables
 	bind := func(param *types.Var, arg ast.Expr) bool {
 		id, ok := ast.Unparen(arg).(*ast.Ident)
 		if !ok {
